@@ -25,7 +25,7 @@ def solid_faces(rng):
             b = [(0.0, 0.0), (6.0, 0.0), (6.0, 2.0), (2.0, 2.0), (2.0, 5.0), (0.0, 5.0)]
         else:
             b = G.star_polygon(rng, n=rng.randint(3, 8), R=10.0, center=(0.0, 0.0))
-        hs = G.holes_in(rng, b, 1) if fam == 'prism_hole' else []
+        hs = G.holes_in(rng, b, rng.choice([1, 2, 2, 3])) if fam == 'prism_hole' else []
         h = G.dy(rng.uniform(1, 9))
         base = Face3D([emb(p) for p in b], holes=[[emb(p) for p in x] for x in hs] or None)
         pf = Polyface3D.from_offset_face(base, h)
